@@ -79,25 +79,22 @@ def run(op):
                     "enum": target.is_enumeration}
         if k == "rename_classes":
             cfg = GeneratorConfig()
-            cfg.output.structure_style = StructureStyle.SINGLE_PACKAGE if op["use_names"] else StructureStyle.FILENAMES
+            cfg.output.structure_style = StructureStyle(op["style"])
             container = ClassContainer(cfg)
             classes = []
-            for i, c in enumerate(op["classes"]):
+            for c in op["classes"]:
                 qn = namespaces.build_qname(c["ns"], c["name"])
-                # two locations so that use_names is False under the filenames style
-                obj = Class(qname=qn, tag="Element" if c["element"] else "ComplexType", abstract=c["abstract"],
-                            location="file:///a.xsd" if (i % 2 == 0 or op["use_names"]) else "file:///b.xsd")
-                classes.append(obj)
+                classes.append(Class(qname=qn, tag="Element" if c["element"] else "ComplexType", abstract=c["abstract"],
+                                     location=c["loc"]))
             container.extend(classes)
             # the handler sees the classes in the container's iteration order (buckets per qname)
             ordered = list(container)
             order = [next(i for i, c in enumerate(classes) if c is o) for o in ordered]
             h = RenameDuplicateClasses(container)
-            if h.use_names != op["use_names"]:
-                return {"err": "harness", "msg": "use_names mismatch"}
+            use_names = h.use_names
             h.run()
             f = filters_for(op.get("conv", {}))
-            return {"ok": [c.name for c in ordered], "qnames": [c.qname for c in ordered], "order": order,
+            return {"ok": [c.name for c in ordered], "qnames": [c.qname for c in ordered], "order": order, "use_names": use_names,
                     "class_names": [f.class_name(c.name) for c in ordered]}
         raise KeyError(k)
     except RecursionError:
